@@ -52,10 +52,8 @@ SigSyms(bk) == {Good(k) : k \in (1..(IF MaxMemberIn(bk) < N THEN MaxMemberIn(bk)
 
 Outsiders(bk) == Cardinality({i \in DOMAIN bk : bk[i] = Outsider})
 LenOK(nb, ns) == IF Which = "sync" THEN ns + 1 >= nb /\ ns <= nb + SigSlack ELSE TRUE
-AlignedOK(bk, sg) ==
-    \/ AlignOpts = 0
-    \/ /\ Len(sg) = Len(bk)
-       /\ \A i \in DOMAIN sg : sg[i] \in ({Good(bk[i]), Good(bk[1])} \cup IF AlignOpts >= 3 THEN {Garbage} ELSE {})
+\* aligned mode: option 1 = the listed key's own signature, 2 = the first listed key's (replayed), 3 = garbage
+AlignedSig(bk, i, o) == IF o = 1 THEN Good(bk[i]) ELSE IF o = 2 THEN Good(bk[1]) ELSE Garbage
 
 -----------------------------------------------------------------------------
 (* the code *)
@@ -101,8 +99,11 @@ SyncBlockHeader ==
 
 Next == \/ (phase = "idle" /\ \E nb \in 0..MaxBk : \E bk \in [1..nb -> 1..(N + 1)] :
                                 Canonical(bk) /\ Outsiders(bk) <= MaxOutsiders /\
-                                \E ns \in 0..MaxSigs : LenOK(nb, ns) /\ \E sg \in [1..ns -> SigSyms(bk)] :
-                                    AlignedOK(bk, sg) /\ Receive([bk |-> bk, sigs |-> sg]))
+                                IF AlignOpts = 0
+                                THEN \E ns \in 0..MaxSigs : LenOK(nb, ns) /\ \E sg \in [1..ns -> SigSyms(bk)] :
+                                         Receive([bk |-> bk, sigs |-> sg])
+                                ELSE \E os \in [1..nb -> 1..AlignOpts] :
+                                         Receive([bk |-> bk, sigs |-> [i \in 1..nb |-> AlignedSig(bk, i, os[i])]]))
         \/ AddHeader \/ SyncBlockHeader
 Spec == Init /\ [][Next]_vars
 
